@@ -33,6 +33,20 @@ Uci::Uci() : search(nullptr), position(), quit(false), options(), polyglot(), po
     });
 }
 
+Uci::~Uci()
+{
+    if (search) search->stop();
+    wait_for_search();
+}
+
+// the search thread works on this object (position, table, book, Search):
+// it has to be gone before the next search is set up and before the object
+// is destroyed
+void Uci::wait_for_search()
+{
+    if (search_thread.joinable()) search_thread.join();
+}
+
 void Uci::loop()
 {
     sync_cout << "Chess engine by Adam Jedrych"
@@ -85,6 +99,11 @@ void Uci::loop()
             sync_cout << "Unknown command" << sync_endl;
         }
     }
+
+    // quit or end of input while searching: the search answers and ends
+    // before main() destroys this object
+    if (search) search->stop();
+    wait_for_search();
 }
 
 bool Uci::uci_command(std::istringstream& /* istream */)
@@ -295,12 +314,15 @@ bool Uci::go_command(std::istringstream& istream)
         }
     }
 
+    // one search at a time: the previous one has answered, let its thread end
+    if (search) search->stop();
+    wait_for_search();
+
     search = std::make_shared<Search>(position, limits, scorer, ttable);
     searchmoves_given = limits.searchmovesnum > 0;
 
     VERIF_SPAWN();
-    std::thread search_thread(start_searching, this);
-    search_thread.detach();
+    search_thread = std::thread(start_searching, this);
 
     return true;
 }
